@@ -193,6 +193,38 @@ def main():
                     return {"reproduced": True, "detail": f"crash at write call {kcrash}: final name holds neither the previous nor a complete new checkpoint", "input": {"crash_at_write": kcrash}}
             elif crashed:
                 return {"reproduced": True, "detail": f"crash at write call {kcrash} destroyed the previous checkpoint", "input": {"crash_at_write": kcrash}}
+        # crash at the instant of the rename: whatever is on disk under the final name right after os.replace returns (data still
+        # sitting in a user-space buffer is NOT on disk) must already be the complete new checkpoint
+        real_replace = os.replace
+        seen = {}
+
+        def replace_then_die(src, dst, *a, **kw):
+            real_replace(src, dst, *a, **kw)
+            if str(dst) == str(target):
+                seen["bytes"] = real_open(dst, "rb").read()
+                raise KeyboardInterrupt("simulated crash right after the rename")
+        for big in (False, True):
+            if big:      # a checkpoint well above the pickle frame size (64 KiB) and every I/O buffer size
+                s = Sampler(pt, ll, n_dim=4, n_particles=256, random_state=2, output_dir=os.path.join(tmp, "crash_big"))
+                s.run(n_total=1024, progress=False)
+                s.save_state(target)
+            os.replace = replace_then_die
+            seen.clear()
+            try:
+                try:
+                    s.save_state(target)
+                except KeyboardInterrupt:
+                    pass
+            finally:
+                os.replace = real_replace
+            tried += 1
+            if "bytes" in seen:
+                try:
+                    dill.loads(seen["bytes"])
+                except Exception as e:
+                    return {"reproduced": True, "detail": f"a crash right after the rename leaves an incomplete file under the checkpoint's final name "
+                            f"({len(seen['bytes'])} bytes on disk, {type(e).__name__} on load): the file was renamed before it was flushed",
+                            "input": {"crash_at": "after os.replace", "large_checkpoint": big}}
         return {"reproduced": False, "tried": tried, "detail": "checkpoint contract held"}
     finally:
         shutil.rmtree(tmp, ignore_errors=True)
